@@ -222,10 +222,11 @@ fn judge(case: &Case, host: Host, sink: &Sink, input: &Value, what: &str) {
     }
 }
 
-fn check_attrs(attrs: &[Attr], sink: &Sink) {
-    let input = json!({"attrs": attrs.iter().map(|a| json!([a.name, a.value, a.sep, a.eq])).collect::<Vec<_>>()});
+/// The files (one per host) that print `attrs` in every closing spelling and noise context.
+fn build_cases(attrs: &[Attr]) -> Vec<(Host, Case)> {
     let expected = expected_attrs(attrs);
     let multiline_layout = attrs.iter().any(|a| SEPS[a.sep as usize].contains('\n') || (VALUES[a.value as usize].0.is_some() && EQS[a.eq as usize].contains('\n')));
+    let mut out = Vec::new();
     for host in HOSTS {
         // A value holding `--` cannot sit in an HTML comment.
         if host == Host::Html && attrs.iter().enumerate().any(|(i, a)| VALUES[a.value as usize].1.contains("--") || name_of(attrs, i).contains("--")) {
@@ -249,7 +250,25 @@ fn check_attrs(attrs: &[Attr], sink: &Sink) {
             }
         }
         if !case.expected.is_empty() {
-            judge(&case, host, sink, &input, "roundtrip");
+            out.push((host, case));
+        }
+    }
+    out
+}
+
+fn check_attrs(attrs: &[Attr], cfg: Option<&Cfg>, sink: &Sink) {
+    let input = json!({"attrs": attrs.iter().map(|a| json!([a.name, a.value, a.sep, a.eq])).collect::<Vec<_>>()});
+    let expected = expected_attrs(attrs);
+    for (host, case) in build_cases(attrs) {
+        judge(&case, host, sink, &input, "roundtrip");
+        // CLI conformance slice: lists of ≤1 attribute also go through the real binary, whose
+        // `list` JSON must show the same blocks, positions and attributes.
+        if let Some(cfg) = cfg {
+            if attrs.len() <= 1 {
+                let files = vec![(host.file().to_string(), case.text.clone())];
+                let lib = crate::librun::run(&crate::librun::Input { files: files.clone(), ..Default::default() });
+                crate::props::conform::cli_agrees(cfg, &files, &lib, &[], "C05", &input, sink);
+            }
         }
     }
     if !attrs.is_empty() {
@@ -261,6 +280,7 @@ fn check_attrs(attrs: &[Attr], sink: &Sink) {
 }
 
 struct AttrSpace {
+    cfg: Cfg,
     full: Vec<Attr>,
     reduced: Vec<Attr>,
     /// Positions 0..full_depth use the full alphabet, later ones the reduced one.
@@ -288,7 +308,7 @@ impl Space for AttrSpace {
     }
     fn check(&self, state: &Vec<u16>, sink: &Sink) {
         let attrs: Vec<Attr> = state.iter().enumerate().map(|(i, &a)| if i < self.full_depth { self.full[a as usize] } else { self.reduced[a as usize] }).collect();
-        check_attrs(&attrs, sink);
+        check_attrs(&attrs, Some(&self.cfg), sink);
     }
 }
 
@@ -369,7 +389,7 @@ pub fn run(cfg: &Cfg, sink: &Arc<Sink>) -> Report {
     report.phase(engine::explore(
         "attribute lists",
         &format!("0..{max_len} attributes; the first {full_depth} over all {} (name, value, separator, = layout) variants, later ones over the {} variants with single-space separator and bare =", full.len(), reduced.len()),
-        AttrSpace { full: full.clone(), reduced: reduced.clone(), full_depth, max_len },
+        AttrSpace { cfg: cfg.clone(), full: full.clone(), reduced: reduced.clone(), full_depth, max_len },
         sink,
         cfg.threads,
         cfg.tier == Tier::Thorough,
@@ -404,7 +424,7 @@ pub fn run(cfg: &Cfg, sink: &Arc<Sink>) -> Report {
     report
 }
 
-pub fn replay(_cfg: &Cfg, input: &Value, sink: &Arc<Sink>) {
+pub fn replay(cfg: &Cfg, input: &Value, sink: &Arc<Sink>) {
     if let Some(list) = input.get("attrs").and_then(Value::as_array) {
         let attrs: Vec<Attr> = list
             .iter()
@@ -413,7 +433,7 @@ pub fn replay(_cfg: &Cfg, input: &Value, sink: &Arc<Sink>) {
                 Some(Attr { name: a[0].as_u64()? as u8, value: a[1].as_u64()? as u8, sep: a[2].as_u64()? as u8, eq: a[3].as_u64()? as u8 })
             })
             .collect();
-        check_attrs(&attrs, sink);
+        check_attrs(&attrs, Some(cfg), sink);
         return;
     }
     let host = |v: &Value| HOSTS.iter().position(|h| Some(format!("{h:?}").as_str()) == v.as_str()).unwrap_or(0);
